@@ -224,7 +224,9 @@ impl ClaimsSetBuilder {
     ///
     /// This function will panic if it used to set a claim with name from the range [1, 7].
     #[must_use]
-    pub fn claim(self, name: iana::CwtClaimName, value: Value) -> Self { let mut self_ = self;
+    pub fn claim(self, name: iana::CwtClaimName, value: Value) ->« (r:» Self«)
+        requires !(1 <= name.spec_to_i64() <= 7),
+        ensures r.inner() == (ClaimsSet { rest: r.inner().rest, ..self.inner() }), r.inner().rest@ == self.inner().rest@.push((ClaimName::Assigned(name), value)),» { let mut self_ = self;
         if name.to_i64() >= iana::CwtClaimName::Iss.to_i64()
             && name.to_i64() <= iana::CwtClaimName::Cti.to_i64()
         {
@@ -236,7 +238,8 @@ impl ClaimsSetBuilder {
 
     /// Set a claim name:value pair where the `name` is text.
     #[must_use]
-    pub fn text_claim(self, name: String, value: Value) -> Self { let mut self_ = self;
+    pub fn text_claim(self, name: String, value: Value) ->« (r:» Self«)
+        ensures r.inner() == (ClaimsSet { rest: r.inner().rest, ..self.inner() }), r.inner().rest@ == self.inner().rest@.push((ClaimName::Text(name), value)),» { let mut self_ = self;
         self_.0.rest.push((ClaimName::Text(name), value));
         self_
     }
@@ -248,7 +251,9 @@ impl ClaimsSetBuilder {
     /// This function will panic if it is used to set a claim with a key value outside of the
     /// private use range.
     #[must_use]
-    pub fn private_claim(self, id: i64, value: Value) -> Self { let mut self_ = self;
+    pub fn private_claim(self, id: i64, value: Value) ->« (r:» Self«)
+        requires id < -65536,
+        ensures r.inner() == (ClaimsSet { rest: r.inner().rest, ..self.inner() }), r.inner().rest@ == self.inner().rest@.push((ClaimName::PrivateUse(id), value)),» { let mut self_ = self;
         assert!(iana::CwtClaimName::is_private(id));
         self_.0.rest.push((ClaimName::PrivateUse(id), value));
         self_
